@@ -60,3 +60,66 @@ def make_recognizer(cls, target_culture, options, eager):
     if eager:
         rec.initialize_models()
     return rec
+
+
+# ---- write monitor: structural fingerprint of the long-lived state -------------------------------
+
+_ATOMS = (str, bytes, int, float, bool, type(None), complex)
+
+
+def fingerprint(roots, lib_prefixes=('recognizers_', 'datatypes_timex')):
+    """{path: value-digest} over the object graph reachable from `roots` through instances of library classes,
+    dicts, lists, tuples and sets.  Compiled patterns are digested by (pattern, flags); functions and classes by
+    qualified name.  Used to detect *any* write to a cached model during a parse call."""
+    import decimal
+    out = {}
+    seen = set()
+    stack = [(name, obj) for name, obj in roots]
+    while stack:
+        path, o = stack.pop()
+        if isinstance(o, _ATOMS) or isinstance(o, decimal.Decimal):
+            out[path] = repr(o)
+            continue
+        oid = id(o)
+        if oid in seen:
+            out[path] = '<shared>'
+            continue
+        seen.add(oid)
+        t = type(o)
+        mod = getattr(t, '__module__', '') or ''
+        if hasattr(o, 'pattern') and hasattr(o, 'flags') and hasattr(o, 'search'):
+            out[path] = 'regex:%s:%s' % (o.flags, hash(o.pattern))
+        elif isinstance(o, dict):
+            out[path] = 'dict:%d' % len(o)
+            for k, v in o.items():
+                kp = '%s[%r]' % (path, k if isinstance(k, _ATOMS) else getattr(k, 'pattern', type(k).__name__))
+                stack.append((kp, v))
+        elif isinstance(o, (list, tuple)):
+            out[path] = '%s:%d' % (t.__name__, len(o))
+            for i, v in enumerate(o):
+                stack.append(('%s[%d]' % (path, i), v))
+        elif isinstance(o, (set, frozenset)):
+            out[path] = 'set:%d:%s' % (len(o), hash(frozenset(x if isinstance(x, _ATOMS) else type(x).__name__ for x in o)))
+        elif mod.startswith(lib_prefixes) or isinstance(o, Tagged):
+            out[path] = 'obj:' + t.__qualname__
+            d = getattr(o, '__dict__', None)
+            if d:
+                for k, v in d.items():
+                    stack.append((path + '.' + k, v))
+        elif callable(o):
+            out[path] = 'callable:' + getattr(o, '__qualname__', t.__name__)
+        else:
+            out[path] = 'opaque:' + t.__qualname__
+    return out
+
+
+def diff_fingerprints(a, b, limit=5):
+    changed = [k for k in a if k in b and a[k] != b[k]]
+    added = [k for k in b if k not in a]
+    removed = [k for k in a if k not in b]
+    return {'changed': sorted(changed)[:limit], 'added': sorted(added)[:limit], 'removed': sorted(removed)[:limit],
+            'n': len(changed) + len(added) + len(removed)}
+
+
+def cache_roots():
+    return [('cache[%s,%s,%d]' % (k.model_type, k.culture, int(k.options)), v) for k, v in cache_dict().items()]
